@@ -30,7 +30,7 @@ func (c07) ID() string { return "C07" }
 
 func (c07) Runs(tier string) int {
 	if tier == "thorough" {
-		return 800000
+		return 600000
 	}
 	return 16000
 }
